@@ -12,7 +12,7 @@ INF = None          # "max not given"
 START = 3           # offset of the write position along the split axis
 CROSS0, CROSS = 2, 7  # offset/extent across the split axis
 SPLIT_OPS = (0,)   # op 4 of run_C12 is the pinned (pre-8a80803) division; no registered path uses it
-OPNAME = {0: "split", 1: "sum", 2: "max", 3: "take", 4: "split"}
+OPNAME = {0: "split", 1: "sum", 2: "max", 3: "take", 4: "split", 5: "multi-render", 6: "split-report", 7: "merge-dimensions"}
 ALIGN_NAMES = {0: "start(TOP/LEFT)", 1: "CENTER", 2: "end(BOTTOM/RIGHT)", 3: "JUSTIFY"}
 
 
@@ -104,17 +104,18 @@ def _box_class():
     from prompt_toolkit.layout.dimension import Dimension
 
     class Box(Container):
-        def __init__(self, dim, orient, log):
-            self.dim, self.orient, self.log = dim, orient, log
+        def __init__(self, dim, orient, log, other=None, pid=None):
+            self.dim, self.orient, self.log, self.pid = dim, orient, log, pid
+            self.other = other if other is not None else Dimension()   # requirement across the split axis
 
         def reset(self):
             pass
 
         def preferred_width(self, max_available_width):
-            return self.dim if self.orient == 1 else Dimension()
+            return self.dim if self.orient == 1 else self.other
 
         def preferred_height(self, width, max_available_height):
-            return self.dim if self.orient == 0 else Dimension()
+            return self.dim if self.orient == 0 else self.other
 
         def write_to_screen(self, screen, mouse_handlers, write_position, parent_style, erase_bg, z_index):
             self.log.append((self, write_position))
@@ -146,6 +147,12 @@ def build_split(case, real_windows=False):
         kids = [Window(height=d) if orient == 0 else Window(width=d) for d in dims]
     else:
         kids = [Box(d, orient, log) for d in dims]
+    return make_split(orient, align, padd, kids, log, real_windows)
+
+
+def make_split(orient, align, padd, kids, log, real_windows=False):
+    from prompt_toolkit.layout.containers import (HSplit, VSplit, VerticalAlign, HorizontalAlign)
+    Box = _box_class()
     small = Box(None, orient, log)
     if orient == 0:
         al = [VerticalAlign.TOP, VerticalAlign.CENTER, VerticalAlign.BOTTOM, VerticalAlign.JUSTIFY][align]
@@ -154,17 +161,25 @@ def build_split(case, real_windows=False):
         al = [HorizontalAlign.LEFT, HorizontalAlign.CENTER, HorizontalAlign.RIGHT, HorizontalAlign.JUSTIFY][align]
         sp = VSplit(kids, window_too_small=small, align=al, padding=padd)
     b = Built()
-    b.split, b.log, b.small, b.kids = sp, log, small, kids
+    b.split, b.log, b.small, b.kids, b.padd, b.real = sp, log, small, kids, padd, real_windows
+    refresh_all(b)
+    return b
+
+
+def refresh_all(b):
+    """(Re)read _all_children as the split itself would and make its Windows record instead of paint."""
+    from prompt_toolkit.layout.containers import Window
+    sp, log = b.split, b.log
     b.all = list(sp._all_children)
-    if not real_windows:
+    if not b.real:
         def rec(w):
             def f(screen, mouse_handlers, write_position, parent_style, erase_bg, z_index):
                 log.append((w, write_position))
+            f._c12_recorder = True
             return f
         for w in b.all + [sp._remaining_space_window]:
-            if isinstance(w, Window):
+            if isinstance(w, Window) and not getattr(w.write_to_screen, "_c12_recorder", False):
                 w.write_to_screen = rec(w)
-    return b
 
 
 def _wp(orient, avail, start):
@@ -186,7 +201,15 @@ def impl_split(case, watchdog=2.0):
     b = build_split(case)
     if isinstance(b, int):
         return [b], None
-    info = {"orient": orient, "done": done, "avail": avail, "start": start, "nchildren": len(children)}
+    return render_once(b, orient, done, avail, start, fuel, watchdog)
+
+
+def render_once(b, orient, done, avail, start, fuel, watchdog=2.0):
+    """One render of the split object as it is now: divide, then write_to_screen."""
+    refresh_all(b)
+    children = list(b.split.children)
+    info = {"orient": orient, "done": done, "avail": avail, "start": start, "nchildren": len(children),
+            "children_now": children}
     _patched["app"].is_done = bool(done)
     if orient == 0:
         dl = [c.preferred_height(CROSS, avail) for c in b.all]
@@ -230,6 +253,7 @@ def impl_split(case, watchdog=2.0):
         raw_regs.append((kind, w, off, ext, coff, cext))
     info["regions"] = raw_regs
     info["all"] = b.all
+    info["all_after"] = list(b.split._all_children)
     if sizes is None:
         return [1, regs], info
     return [0, list(sizes), regs], info
@@ -287,6 +311,132 @@ def impl_split_real(case):
         C.get_app = old
 
 
+def multi_case(orient, done, align, pad, pool, avail, steps):
+    n_all = 2 * max(len(st) for st in steps) + 2
+    ws = [c[2][0] if c[2] else 1 for c in pool] + [pad[2][0] if pad[2] else 1, 1]
+    return [5, orient, done, align, pad, pool, avail, START, fuel_bound(n_all, ws, avail), steps]
+
+
+def impl_multi(case):
+    """Render, edit split.children (in place, or by assigning a new list), render again, ..."""
+    _, orient, done, align, pad, pool, avail, start, fuel, steps = case
+    Box = _box_class()
+    log = []
+    try:
+        padd = _mkdim(pad)
+        dims = [_mkdim(c) for c in pool]
+    except ValueError:
+        return [4], []
+    except AssertionError:
+        return [5], []
+    boxes = [Box(d, orient, log, pid=k) for k, d in enumerate(dims)]
+    b = make_split(orient, align, padd, [boxes[i] for i in steps[0]], log)
+    out, infos = [], []
+    for k, ids in enumerate(steps):
+        if k > 0:
+            cur = b.split.children
+            new = [boxes[i] for i in ids]
+            diff = [j for j in range(min(len(cur), len(new))) if cur[j] is not new[j]]
+            if (k + len(ids)) % 4 == 0:
+                b.split.children = new                       # a new list object
+            elif len(cur) == len(new) and len(diff) == 2 and cur[diff[0]] is new[diff[1]] and cur[diff[1]] is new[diff[0]]:
+                cur[diff[0]], cur[diff[1]] = cur[diff[1]], cur[diff[0]]     # swap in place
+            elif len(cur) == len(new) and len(diff) == 1:
+                cur[diff[0]] = new[diff[0]]                  # replace in place
+            elif len(cur) == len(new) and len(cur) > 1 and all(cur[(j + 1) % len(cur)] is new[j] for j in range(len(cur))):
+                cur.append(cur.pop(0))                       # pop + insert
+            else:
+                cur[:] = new                                 # any other in-place edit
+        res, info = render_once(b, orient, done, avail, start, fuel)
+        codes = []
+        for w in b.all:
+            if isinstance(w, Box):
+                codes.append(w.pid)
+            elif getattr(w, "height", None) is padd or getattr(w, "width", None) is padd:
+                codes.append(-1)
+            else:
+                codes.append(-2)
+        out.append([canon_split(res), codes])
+        infos.append((res, info))
+    return out, infos
+
+
+def impl_report(case):
+    """The Dimension a split reports to its parent: preferred_width / preferred_height."""
+    _, orient, axis, align, pad, ws, hs, width, fuel = case
+    Box = _box_class()
+    try:
+        padd = _mkdim(pad)
+        dw = [_mkdim(c) for c in ws]
+    except ValueError:
+        return [4]
+    except AssertionError:
+        return [5]
+    try:
+        dh = [_mkdim(c) for c in hs]
+    except ValueError:
+        return [4]
+    except AssertionError:
+        return [5]
+    log = []
+    kids = [Box(dh[k] if orient == 0 else dw[k], orient, log, other=(dw[k] if orient == 0 else dh[k])) for k in range(len(dw))]
+    b = make_split(orient, align, padd, kids, log)
+    _patched["app"].is_done = False
+    _Budget.n, _Budget.limit = 0, 2 * fuel + 1
+    try:
+        if axis == 0:
+            d = with_watchdog(lambda: b.split.preferred_width(width), 2)
+        else:
+            d = with_watchdog(lambda: b.split.preferred_height(width, 10 ** 6), 2)
+    except Hang:
+        return [3]
+    except ValueError:
+        return [4]
+    except AssertionError:
+        return [5]
+    finally:
+        _Budget.limit = 10 ** 9
+    return canon_dim(d)
+
+
+def impl_merge(case):
+    """Window._merge_dimensions directly, and through Window.preferred_height/width with a stub control."""
+    from prompt_toolkit.layout.containers import Window
+    from prompt_toolkit.layout.controls import UIControl, UIContent
+    r, cp, de = case[1], case[2], case[3]
+    cpv = cp[0] if cp else None
+    try:
+        d = _mkdim(r)
+    except ValueError:
+        return [4], None
+    except AssertionError:
+        return [5], None
+    if all(not x for x in r) and (cpv is None or cpv % 2 == 0):
+        d = None                                              # Window(height=None)
+
+    class Ctl(UIControl):
+        def create_content(self, width, height):
+            return UIContent(get_line=lambda i: [], line_count=1)
+
+        def preferred_width(self, max_available_width):
+            return cpv
+
+        def preferred_height(self, width, max_available_height, wrap_lines, get_line_prefix):
+            return cpv
+
+    def run(f):
+        try:
+            return canon_dim(with_watchdog(f, 2))
+        except ValueError:
+            return [4]
+        except AssertionError:
+            return [5]
+    a = run(lambda: Window._merge_dimensions(dimension=d, get_preferred=lambda: cpv, dont_extend=bool(de)))
+    h = run(lambda: Window(content=Ctl(), height=d, dont_extend_height=bool(de)).preferred_height(10, 10))
+    w = run(lambda: Window(content=Ctl(), width=d, dont_extend_width=bool(de)).preferred_width(10))
+    return a, (h, w)
+
+
 def project_nonempty(m):
     """model result -> what a real Screen records (regions with extent > 0)"""
     if isinstance(m, list) and m and m[0] in (0, 1):
@@ -308,6 +458,15 @@ def big(v):
         v //= BASE
     out.append(v)
     return ([-1] if neg else []) + out
+
+
+def unbig(v):
+    if isinstance(v, int):
+        return v
+    neg = bool(v) and v[0] == -1
+    ds = v[1:] if neg else v
+    n = sum(x * BASE ** k for k, x in enumerate(ds))
+    return -n if neg else n
 
 
 def canon_dim(d):
@@ -437,6 +596,13 @@ def oracle_split(case, res, info):
     kids = [x for x in regs if x[0] == 0]
     if vsplit_empty:
         return None
+    Box = _box_class()
+    listed = info.get("children_now")
+    if listed is not None and all(isinstance(c, Box) for c in listed):
+        drawn = [x[1] for x in kids if isinstance(x[1], Box)]
+        if len(drawn) != len(listed) or any(a is not c for a, c in zip(drawn, listed)):
+            return ("the children drawn are not the children listed now, one by one in their listed order (drawn %r, listed %r)" % (
+                [getattr(a, "pid", "?") for a in drawn], [getattr(c, "pid", "?") for c in listed]), "regions-listed-children")
     if len(kids) != len(r) or any(x[1] is not c for x, c in zip(kids, info["all"])):
         return ("children are not drawn one by one in their listed order", "regions")
     pos = start
@@ -583,6 +749,54 @@ def gen_cases(chk):
         kids.insert(rng.randint(0, len(kids)), rng.choice([raw(3, 2, 1, 2), raw(-1, 2, 1, 2), raw(0, 2, -1, 1), raw(0, -2, 1, 1),
                                                            raw(0, 2, 1, -1), raw(5, 1, None, None)]))
         add("invalid_dimension", split_case(rng.randint(0, 1), 0, rng.randint(0, 3), rng.choice(PADS), kids, rng.randint(0, 12)))
+    # one split object rendered several times with its children list edited in between
+    small = [sp for sp in specs if sp[2] != [0] or rng.random() < 0.3]
+    for _ in range(20000 if thorough else 2500):
+        npool = rng.randint(2, 5)
+        pool = [rng.choice(small) for _ in range(npool)]
+        cur = rng.sample(range(npool), rng.randint(1, npool))
+        steps = [list(cur)]
+        for _ in range(rng.randint(1, 3)):
+            cur = list(cur)
+            e = rng.choice(["swap", "swap", "replace", "replace", "rotate", "rotate", "append", "delete", "same", "shuffle", "reverse"])
+            rest = [i for i in range(npool) if i not in cur]
+            if e == "swap" and len(cur) >= 2:
+                a, b2 = rng.sample(range(len(cur)), 2)
+                cur[a], cur[b2] = cur[b2], cur[a]
+            elif e == "replace" and rest and cur:
+                cur[rng.randrange(len(cur))] = rng.choice(rest)
+            elif e == "rotate" and len(cur) >= 2:
+                cur = cur[1:] + cur[:1]
+            elif e == "append" and rest:
+                cur.append(rng.choice(rest))
+            elif e == "delete" and cur:
+                del cur[rng.randrange(len(cur))]
+            elif e == "shuffle":
+                rng.shuffle(cur)
+            elif e == "reverse":
+                cur.reverse()
+            steps.append(list(cur))
+        add("multi_render_edited_children", multi_case(rng.randint(0, 1), rng.choice([0, 0, 0, 1]), rng.randint(0, 3),
+                                                       rng.choice(PADS), pool, rng.randint(0, 14), steps))
+    # the dimension a split reports to its parent
+    for _ in range(8000 if thorough else 1200):
+        n = rng.choice([0, 1, 2, 2, 3, 3, 4])
+        ws_ = [rng.choice(specs) for _ in range(n)]
+        hs_ = [rng.choice(specs) for _ in range(n)]
+        pad = rng.choice(PADS)
+        width = rng.randint(0, 14)
+        wts = [c[2][0] if c[2] else 1 for c in ws_] + [pad[2][0] if pad[2] else 1, 1]
+        add("split_reported_dimension", [6, rng.randint(0, 1), rng.randint(0, 1), rng.randint(0, 3), pad, ws_, hs_, width,
+                                         fuel_bound(2 * n + 2, wts, width)])
+    # Window._merge_dimensions
+    mvals = [None, 0, 1, 2, 5]
+    for mn in mvals:
+        for mx in mvals:
+            for p_ in mvals:
+                for cp in ([], [0], [1], [3], [9]):
+                    for de in (0, 1):
+                        if thorough or rng.random() < 0.5:
+                            add("merge_dimensions", [7, raw(mn, mx, rng.choice([None, 0, 1, 3]), p_), cp, de])
     # dimension algebra and the generator on their own
     for _ in range(4000 if thorough else 600):
         kids = [rng.choice(specs) for _ in range(rng.randint(0, 4))]
@@ -604,6 +818,18 @@ def describe_case(c):
             ["D(min=%r,max=%r,weight=%r,preferred=%r)" % unraw(k) for k in c[5]], ALIGN_NAMES.get(c[3]),
             "D(min=%r,max=%r,weight=%r,preferred=%r)" % unraw(c[4]),
             "_divide_heights" if c[1] == 0 else "_divide_widths", c[6], " [app.is_done]" if c[2] else "")
+    if c[0] == 5:
+        return "%s(children=pool[%r], align=%s, padding=D%r) with pool=%s, available %d%s; then split.children edited to %s, rendered after each edit" % (
+            "HSplit" if c[1] == 0 else "VSplit", c[9][0], ALIGN_NAMES.get(c[3]), unraw(c[4]),
+            ["D(min=%r,max=%r,weight=%r,preferred=%r)" % unraw(k) for k in c[5]], c[6], " [app.is_done]" if c[2] else "",
+            " -> ".join("pool[%r]" % (st,) for st in c[9][1:]))
+    if c[0] == 6:
+        return "%s(children with widths %s heights %s, align=%s, padding=D%r).%s" % (
+            "HSplit" if c[1] == 0 else "VSplit", [unraw(k) for k in c[5]], [unraw(k) for k in c[6]], ALIGN_NAMES.get(c[3]), unraw(c[4]),
+            "preferred_width(%d)" % c[7] if c[2] == 0 else "preferred_height(%d, ..)" % c[7])
+    if c[0] == 7:
+        return "Window._merge_dimensions(D(min=%r,max=%r,weight=%r,preferred=%r), get_preferred -> %r, dont_extend=%r)" % (
+            unraw(c[1]) + (c[2][0] if c[2] else None, bool(c[3])))
     if c[0] in (1, 2):
         return "%s(%s)" % ("sum_layout_dimensions" if c[0] == 1 else "max_layout_dimensions", [unraw(k) for k in c[1]])
     return "take_using_weights(range(%d), %r) first %d" % (len(c[1]), c[1], c[2])
@@ -616,6 +842,28 @@ def run_impl(c):
     if c[0] in (1, 2):
         res, dims = impl_dimop(c)
         return res, dims, oracle_dimop(c, res, dims)
+    if c[0] == 5:
+        res, infos = impl_multi(c)
+        bad = None
+        for k, (r, info) in enumerate(infos):
+            bad = oracle_split(c, r, info)
+            if bad:
+                bad = ("render %d of %d: %s" % (k + 1, len(infos), bad[0]), bad[1])
+                break
+        return res, infos, bad
+    if c[0] == 6:
+        res = impl_report(c)
+        bad = None
+        if res[0] == 0 and not (0 <= unbig(res[1][0]) <= unbig(res[1][2]) <= unbig(res[1][1])):
+            bad = ("a split reports a dimension that is not min <= preferred <= max", "report")
+        return res, None, bad
+    if c[0] == 7:
+        res, hw = impl_merge(c)
+        h, w = hw or (None, None)
+        bad = None
+        if h is not None and (h != res or w != res):
+            bad = ("Window.preferred_height/width differ from Window._merge_dimensions: %r %r %r" % (res, h, w), "merge-path")
+        return res, None, bad
     res = impl_take(c)
     return res, None, oracle_take(c, res)
 
@@ -651,8 +899,10 @@ def main(tier):
         impl_results.append(res)
         nontrivial = c[0] not in SPLIT_OPS or (res[0] == 0 and any(x != 0 for x in res[1])) or res[0] in (1, 2, 3)
         chk.count_case(c, nontrivial)
-        tagname = {0: "sizes", 1: "too-small", 2: "ValueError", 3: "hang", 4: "ctor-ValueError", 5: "ctor-AssertionError"}.get(res[0], "?")
-        fams[tagname] = fams.get(tagname, 0) + 1
+        heads = [st[0][0] for st in res] if c[0] == 5 and res and isinstance(res[0], list) and isinstance(res[0][0], list) else [res[0]]
+        for hd in heads:
+            tagname = {0: "sizes", 1: "too-small", 2: "ValueError", 3: "hang", 4: "ctor-ValueError", 5: "ctor-AssertionError"}.get(hd, "?")
+            fams[tagname] = fams.get(tagname, 0) + 1
         if res == [3] and c[0] in SPLIT_OPS:
             hangs.append(i)
         if bad:
@@ -664,6 +914,20 @@ def main(tier):
         if i % 4001 == 0:
             chk.sample({"case": describe_case(c), "impl_result": res})
     phase["implementation+oracle"] = round(time.time() - chk.t0, 1)
+    # CPython's `taken < i*weight/float(max_weight)` against the exact integer comparison, below 2**53
+    # (theorem C12_float_compare_exact is about IEEE binary64; this ties CPython's int/float semantics to it)
+    nprobe, nbadf = (200000 if chk.tier == "thorough" else 30000), 0
+    for _ in range(nprobe):
+        bb = chk.rng.choice([chk.rng.randint(1, 2 ** 53 - 1), chk.rng.randint(1, 2 ** 27), 2 ** chk.rng.randint(0, 52) + chk.rng.randint(0, 3)])
+        aa = chk.rng.choice([chk.rng.randint(0, 2 ** 53 - 1), min(2 ** 53 - 1, bb * chk.rng.randint(0, 2 ** 26) + chk.rng.randint(0, 2))])
+        q = aa // bb
+        for tt in (q - 1, q, q + 1):
+            if (tt < aa / float(bb)) != (tt * bb < aa):
+                nbadf += 1
+                if nbadf == 1:
+                    chk.violation("tie", "CPython float test differs from the exact comparison below 2**53: taken=%d i*weight=%d max_weight=%d" % (tt, aa, bb),
+                                  {"kind": "float-compare"}, {"taken": tt, "i_times_weight": aa, "max_weight": bb}, no_input=True)
+    chk.coverage["float_compare_probes"] = 3 * nprobe
     # hangs found through the item budget: confirm a few on the untouched generator with the plain watchdog
     confirmed = 0
     for i in hangs[:2] + (hangs[-1:] if len(hangs) > 2 else []):
@@ -724,7 +988,8 @@ def main(tier):
                             "too-small/ValueError/hang; distinct by hash of the case" % (
                                 "all" if chk.tier == "thorough" else "12%", "2%" if chk.tier == "thorough" else "0.12%"))
     chk.assumptions += [
-        "take_using_weights compares `taken < i*weight/float(max_weight)`; the model compares taken*max_weight < i*weight exactly; equal when i*weight < 2**53 (probed with weights up to 2**40)",
+        "take_using_weights compares `taken < i*weight/float(max_weight)`; the model compares taken*max_weight < i*weight exactly; proved equal for IEEE binary64 when i*weight < 2**53 and max_weight < 2**53 (C12_float_compare_exact, Flocq); CPython's int/float division and int<float comparison are assumed to be the IEEE operations (probed on this run); beyond 2**53 no agreement is claimed",
+        "self.align and self.padding of a split are not changed after construction (they are not part of the _all_children cache key)",
         "a hang would be observed as: more than 2*fuel+1 items pulled from the real generator (fuel = divide_fuel, the proven per-loop bound; 4000 for the large-weight cases) or the 2 s watchdog; such cases are re-run on the untouched generator under the plain 2 s watchdog",
         "children are stub containers reporting a fixed Dimension (and real Window(height=/width=) children on a sample); get_app() is replaced by a stand-in with a controllable is_done; Window contents (C11) are outside",
         "the dimensions children report are constant during one divide call"]
